@@ -52,6 +52,8 @@ CORPUS = ['return 5 print 1', 'return', 'assign t -8:00', 'hue -8:00', 'assign t
           'print {1 % 0}', 'print {10 ^ 400}', 'repeat 1000000000 begin end', 'define f begin [f] end', 'assign x 1 define f with x begin return x end print [f]',
           'assign w {2 ^ 3 ^ 2} print w', 'print {2 ^ 1 ^ 2 ^ 1}', 'print {1 - 2 - 3 - 4}', 'print {2 * 3 ^ 2 ^ 1 * 2}', 'print {1 < 2 < 3 < 4}',
           'hue {{1 + 2} + 3} print hue', 'assign x {{4}} print x', 'print {3 * {1 + {2}}}', 'print {[round {1.5}] + {2}}', 'if {{1 < 2} and {2 < 3}} on all',
+          'set "Top" begin on "Top" end', 'set "Top" begin off all end print 1', 'set "Top" begin get "Top" end', 'set "Top" begin set "Top" begin stage row 1 end end',
+          'set "Top" begin on "Top" and "Top" end set "Top"', 'set "Top" and "Top" begin on "Top" end', 'set "Top" begin wait end', 'set "Top" begin units raw end',
           'on default', 'off default', 'on "Top" row 1', 'off "Top" column 1 2', 'on "Top" begin stage row 1 end', 'define u1 zz', 'define u2 zz print u2',
           'assign n1 not 5 print n1', 'if not 0 print 1', 'hue not 0 print hue', 'repeat while not 1 begin on all end', 'printf "{}" not 1',
           'print [round]', 'print [round 1 2]', 'print [random 5 1]', 'print [cycle "a"]', 'hue [undefined_fn 1]']
@@ -100,7 +102,13 @@ def stmt_soup(rng):
 def deep(rng):
     """Nesting far beyond anything sensible: braces, parentheses, brackets, blocks."""
     n = rng.choice([20, 60, 200, 400, 1000, 3000])
-    kind = rng.choice(['brace', 'paren', 'bracket', 'if', 'repeat', 'mixed', 'not', 'minus'])
+    kind = rng.choice(['brace', 'paren', 'bracket', 'if', 'repeat', 'mixed', 'not', 'minus', 'digits', 'digits', 'name', 'string'])
+    if kind == 'digits':
+        return rng.choice(['print %s', 'hue %s', 'assign x %s print x', 'print {1 + %s}', 'repeat %s begin break end', 'print 1.%s', 'time %s']) % ('7' * rng.choice([50, 400, 4299, 4301, 5000, 20000]))
+    if kind == 'name':
+        return 'assign %s 1 print %s' % ('a' * n * 3, 'a' * n * 3)
+    if kind == 'string':
+        return 'print "%s"' % ('s' * n * 10)
     if kind == 'brace':
         return 'print ' + '{' * n + '1' + '}' * n
     if kind == 'paren':
